@@ -265,11 +265,15 @@ Section Manip.
     | l :: ams', c :: cs' => if is_single_column c then kept_am ams' cs' else l :: kept_am ams' cs'
     | _, _ => []
     end.
+  (* what is left of a fused shell may hold s and p functions only: it then loses the spherical/cartesian tag, like the parts
+     uncontract_spdf splits off *)
+  Definition rm_ftype (s : shell) : string :=
+    if Nat.ltb 1 (List.length (am s)) then split_function_type (ftype s) (kept_am (am s) (coefs s)) else ftype s.
   Definition rm_free_shell (s : shell) : list shell :=
     let cs := filter (fun c => negb (is_single_column c)) (coefs s) in
     match cs with
     | [] => []
-    | _ => [mkShell (ftype s) (region s)
+    | _ => [mkShell (rm_ftype s) (region s)
                     (if Nat.ltb 1 (List.length (am s)) then kept_am (am s) (coefs s) else am s) (exps s) cs]
     end.
   Definition remove_free_primitives (b : basis) : res basis :=
